@@ -227,6 +227,9 @@ func (key *PublicKey) ECDSA() (*ecdsa.PublicKey, error) {
 		if key.KeyBlock.KeyFormatType == KeyFormatTypeTransparentECPublicKey {
 			tkey = mat.TransparentECPublicKey
 		}
+		if tkey == nil {
+			return nil, errors.New("Empty key material")
+		}
 		var curve elliptic.Curve
 		switch tkey.RecommendedCurve {
 		case RecommendedCurveP_224:
@@ -420,6 +423,9 @@ func (key *PrivateKey) ECDSA() (*ecdsa.PrivateKey, error) {
 		// KMIP 1.3 unified all elliptic curve keys into a single type
 		if key.KeyBlock.KeyFormatType == KeyFormatTypeTransparentECPrivateKey {
 			tkey = mat.TransparentECPrivateKey
+		}
+		if tkey == nil {
+			return nil, errors.New("Empty key material")
 		}
 
 		var curve elliptic.Curve
